@@ -9,7 +9,7 @@ import sys
 from .. import core, engine, gen
 from ..core import Rng
 from ..engine import Outcome
-from .base import PropBase, STD, exec_args, gen_run, plan_of, not_meta, crashed, classify_diff, split_static_function, K8_SIG, K9_KIND
+from .base import PropBase, STD, exec_args, gen_run, plan_of, not_meta, crashed, classify_diff, split_static_function, K8_SIG, K9_KIND, gen_project_mode, input_args, project_candidates
 from .history import describe_history
 
 
@@ -75,6 +75,9 @@ class C20(PropBase):
                 scn["edit"] = {"desc": desc, "set": sett, "units": list(units2)}
         if tier == "thorough" and rng.chance(0.3):
             scn["second_kill"] = {"frac": rng.below(10000) / 10000.0, "prefix": rng.choice([0, 1, 500, 1000])}
+        scn["project"] = gen_project_mode(rng, proj["units"], 0.15)
+        # how the victim is interrupted: SIGKILL (with a byte-prefix tear of the op) or "kill <pid>" with a catchable signal
+        scn["victim"]["crash_sig"] = rng.choice([9, 9, 9, 15, 2, 1])
         return scn
 
     # ------------------------------------------------------------------
@@ -96,8 +99,10 @@ class C20(PropBase):
         base = os.path.join(wd, "bd_base")
         os.makedirs(base)
 
+        strip = tree_dir if scn.get("project") else None
+
         def args_for(run, bd, us):
-            return STD + oargs + ["--cppcheck-build-dir=../" + bd] + exec_args(run) + us
+            return STD + oargs + ["--cppcheck-build-dir=../" + bd] + exec_args(run) + input_args(scn, us, tree_dir, wd, "cdb")
 
         if scn.get("warmup"):
             r = core.run_sim("plain", tree_dir, args_for(scn["warmup"], "bd_base", units), plan=plan_of(scn["warmup"]),
@@ -163,19 +168,24 @@ class C20(PropBase):
             if not fired:
                 out.probe("kill_point_not_reached")
                 continue
-            if r.sig != 9:
+            handled = " handled" in fired[0] or " ignored" in fired[0]
+            if handled:
+                out.probe("interrupt_signal_handled_by_program")   # the program caught the signal and went on (graceful shutdown)
+            elif r.sig != 9:
                 out.error = "crash injected at op %d but process ended rc=%s sig=%s" % (k, r.rc, r.sig)
                 return out
             opl = [o for o in r.ops() if int(o[2]) == k]
             okind, orel, olen = (opl[0][4], opl[0][5], int(opl[0][6])) if opl else ("?", "?", 0)
             pcls = "n/a" if olen == 0 else "0" if pre == 0 else "full" if pre >= 1000 else "interior"
+            if victim.get("crash_sig", 9) != 9:
+                pcls = "signal %d%s" % (victim["crash_sig"], " (handled by the program)" if handled else "")
             closed = sum(1 for o in r.ops() if int(o[2]) < k and o[4] == "close" and file_class(o[5]) == "*.aN")
             victims.append((i, bd, k, pre, okind, file_class(orel), pcls, closed))
         # phase 2: edit
         if scn.get("edit"):
             self._apply_edit(tree_dir, scn["edit"])
             units = list(scn["edit"]["units"])
-        ref = core.run_sim("plain", tree_dir, STD + oargs + ["-j1"] + units, plan=None, tag="ref")
+        ref = core.run_sim("plain", tree_dir, STD + oargs + ["-j1"] + input_args(scn, units, tree_dir, wd, "cdb"), plan=None, tag="ref", strip=strip)
         if crashed(ref) or not ref.xml_ok:
             out.probe("reference_unusable")
             return out
@@ -192,7 +202,7 @@ class C20(PropBase):
                 out.account(r2)
                 if any(l.startswith("X ") and " crash " in l for l in r2.trace):
                     out.probe("second_kill_fired")
-            r = core.run_sim("plain", tree_dir, args_for(rec, bd, units), plan=plan_of(rec), roots=["../" + bd], workdir=wd, tag="rec%d" % i)
+            r = core.run_sim("plain", tree_dir, args_for(rec, bd, units), plan=plan_of(rec), roots=["../" + bd], workdir=wd, tag="rec%d" % i, strip=strip)
             out.account(r)
             out.states.append("%s|%s|%s|%s|%s" % (okind, fcls, pcls, victim.get("exec"), rec.get("exec")))
             where = "kill at %s of %s (prefix %s)" % (okind, fcls, pcls)
@@ -232,6 +242,8 @@ class C20(PropBase):
             for p in pts:
                 c = copy.deepcopy(scn); c["points"] = [p]
                 yield c
+        for c in project_candidates(scn):
+            yield c
         for key in ("warmup", "pre_edit", "edit", "second_kill"):
             if scn.get(key):
                 c = copy.deepcopy(scn); c[key] = None
@@ -241,7 +253,7 @@ class C20(PropBase):
         for key in ("victim", "recovery"):
             r = scn[key]
             if r.get("exec") != "j1":
-                c = copy.deepcopy(scn); keep = {k: v for k, v in r.items() if k in ("seed", "chunk")}; keep["exec"] = "j1"
+                c = copy.deepcopy(scn); keep = {k: v for k, v in r.items() if k in ("seed", "chunk", "crash_sig")}; keep["exec"] = "j1"
                 c[key] = keep
                 yield c
         if len(scn["units"]) > 1 and not scn.get("edit") and not scn.get("pre_edit"):
@@ -262,7 +274,7 @@ class C20(PropBase):
         return {"units": scn["units"], "opts": gen.flatten_opts(scn.get("opts", {})),
                 "warmup": " ".join(exec_args(scn["warmup"])) if scn.get("warmup") else None,
                 "pre_edit": scn["pre_edit"]["desc"] if scn.get("pre_edit") else None,
-                "victim": " ".join(exec_args(scn["victim"])) + " chunk=%s" % scn["victim"].get("chunk"),
+                "victim": " ".join(exec_args(scn["victim"])) + " chunk=%s interrupted by signal %s" % (scn["victim"].get("chunk"), scn["victim"].get("crash_sig", 9)),
                 "kill_points": scn["points"] if scn["points"] == "all" else len(scn["points"]),
                 "edit": scn["edit"]["desc"] if scn.get("edit") else None,
                 "recovery": " ".join(exec_args(scn["recovery"])), "second_kill": scn.get("second_kill")}
